@@ -13,10 +13,12 @@ Local Open Scope N_scope.
 
 (** (a) For every history of events reaching the layer on a thread (nested ones included), the calls on
     the configured writer are: per event one [make_writer_for] with its metadata, then one [write_all]
-    with exactly its record.  [A] = buffer element type, [M] = metadata type. *)
-Theorem C13_one_factory_one_write : forall (A M : Type) (c : cfg) (es : list (event A M)),
-  (pol c = ClearAfterOnly -> NoAbortedFormat es) ->
-  snd (run_thread c [] es) = spec_actions (flat_map (records (lie c)) es).
+    with exactly its record.  [A] = buffer element type, [M] = metadata type.  [unw]: which writes do
+    not return because a sink panicked — arbitrary; what a write RETURNS ([Ok] / an [io::Error]) is not even
+    an input of the protocol, the code ignores it (translators/fmtbuf.py checks that on every run). *)
+Theorem C13_one_factory_one_write : forall (A M : Type) (unw : M -> list A -> bool) (c : cfg) (es : list (event A M)),
+  (pol c = ClearAfterOnly -> NoAbortedFormat unw (lie c) es) ->
+  snd (run_thread unw c [] es) = spec_actions (flat_map (records (lie c)) es).
 Proof. exact one_factory_one_write. Qed.
 Print Assumptions C13_one_factory_one_write.
 
@@ -24,33 +26,33 @@ Print Assumptions C13_one_factory_one_write.
     one whole-record write per routed record, on exactly the denoted sinks. *)
 Theorem C13_sinks_see_one_factory_one_write : forall (M : Type) (pm : M -> meta) (c : cfg) (w : wexp) (es : list (event N M)),
   well_typed w = true ->
-  (pol c = ClearAfterOnly -> NoAbortedFormat es) ->
-  distribute pm w (snd (run_thread c [] es)) = sink_spec pm w (flat_map (records (lie c)) es).
+  (pol c = ClearAfterOnly -> NoAbortedFormat no_unwind (lie c) es) ->
+  distribute pm w (snd (run_thread no_unwind c [] es)) = sink_spec pm w (flat_map (records (lie c)) es).
 Proof. exact sinks_see_one_factory_one_write. Qed.
 Print Assumptions C13_sinks_see_one_factory_one_write.
 
 (** After the repair (either form) the hypothesis is gone: a caught panic during formatting affects no
     later record. *)
-Theorem C13_panic_safe_when_repaired : forall (A M : Type) (c : cfg) (es : list (event A M)),
+Theorem C13_panic_safe_when_repaired : forall (A M : Type) (unw : M -> list A -> bool) (c : cfg) (es : list (event A M)),
   pol c <> ClearAfterOnly ->
-  snd (run_thread c [] es) = spec_actions (flat_map (records (lie c)) es).
+  snd (run_thread unw c [] es) = spec_actions (flat_map (records (lie c)) es).
 Proof. exact panic_safe_when_repaired. Qed.
 Print Assumptions C13_panic_safe_when_repaired.
 
 (** The statement for the tree under check, whichever policy the translator found in it. *)
-Theorem C13_one_factory_one_write_current_tree : forall (A M : Type) (l : bool) (es : list (event A M)),
-  (Gen_fmtbuf.clear_policy = ClearAfterOnly -> NoAbortedFormat es) ->
-  snd (run_thread (Cfg Gen_fmtbuf.clear_policy l) [] es) = spec_actions (flat_map (records l) es).
-Proof. intros A M l es H. exact (one_factory_one_write A M (Cfg Gen_fmtbuf.clear_policy l) es H). Qed.
+Theorem C13_one_factory_one_write_current_tree : forall (A M : Type) (unw : M -> list A -> bool) (l : bool) (es : list (event A M)),
+  (Gen_fmtbuf.clear_policy = ClearAfterOnly -> NoAbortedFormat unw l es) ->
+  snd (run_thread unw (Cfg Gen_fmtbuf.clear_policy l) [] es) = spec_actions (flat_map (records l) es).
+Proof. intros A M unw l es H. exact (one_factory_one_write A M unw (Cfg Gen_fmtbuf.clear_policy l) es H). Qed.
 Print Assumptions C13_one_factory_one_write_current_tree.
 
 (** Known finding F9: with [ClearAfterOnly] the hypothesis is necessary.  info!(a=1); a caught panic in
     info!(x=7, b=?PanickingDebug); info!(c=3): the third write starts with the second record's prefix. *)
 Theorem C13_F9_refuted :
-  ~ NoAbortedFormat f9_history /\
-  snd (run_thread (Cfg ClearAfterOnly true) [] f9_history)
+  ~ NoAbortedFormat no_unwind true f9_history /\
+  snd (run_thread no_unwind (Cfg ClearAfterOnly true) [] f9_history)
     = [AMake 1; AWrite 1 [105; 49; 10]; AMake 3; AWrite 3 [120; 55; 98; 61; 99; 51; 10]] /\
-  snd (run_thread (Cfg ClearAfterOnly true) [] f9_history) <> spec_actions (flat_map (records true) f9_history).
+  snd (run_thread no_unwind (Cfg ClearAfterOnly true) [] f9_history) <> spec_actions (flat_map (records true) f9_history).
 Proof. exact F9_refuted. Qed.
 Print Assumptions C13_F9_refuted.
 
@@ -58,20 +60,20 @@ Print Assumptions C13_F9_refuted.
     "format into own buffer" / "make_writer_for" / "write": each thread's part of the global call log is
     a prefix of what it emits when run alone (all of it once finished) — the log is an interleaving of
     whole calls ... *)
-Theorem C13_no_interleave : forall (A M : Type) (c : cfg) (progs : list (list (event A M))) (sched : list nat) (t : nat) (es : list (event A M)),
+Theorem C13_no_interleave : forall (A M : Type) (unw : M -> list A -> bool) (c : cfg) (progs : list (list (event A M))) (sched : list nat) (t : nat) (es : list (event A M)),
   nth_error progs t = Some es ->
-  let g := run_sched c sched (init progs) in
+  let g := run_sched unw c sched (init progs) in
   exists s, nth_error (fst g) t = Some s
-         /\ proj t (snd g) ++ remaining c s = snd (run_thread c [] es)
-         /\ (finished s = true -> proj t (snd g) = snd (run_thread c [] es)).
+         /\ proj t (snd g) ++ remaining unw c s = snd (run_thread unw c [] es)
+         /\ (finished s = true -> proj t (snd g) = snd (run_thread unw c [] es)).
 Proof. exact no_interleave. Qed.
 Print Assumptions C13_no_interleave.
 
 (** ... and every single write in it carries exactly one whole record of the writing thread. *)
-Theorem C13_every_write_is_a_whole_record : forall (A M : Type) (c : cfg) (progs : list (list (event A M))) (sched : list nat) (t : nat) (es : list (event A M)) (m : M) (b : list A),
+Theorem C13_every_write_is_a_whole_record : forall (A M : Type) (unw : M -> list A -> bool) (c : cfg) (progs : list (list (event A M))) (sched : list nat) (t : nat) (es : list (event A M)) (m : M) (b : list A),
   nth_error progs t = Some es ->
-  (pol c = ClearAfterOnly -> NoAbortedFormat es) ->
-  In (t, AWrite m b) (snd (run_sched c sched (init progs))) ->
+  (pol c = ClearAfterOnly -> NoAbortedFormat unw (lie c) es) ->
+  In (t, AWrite m b) (snd (run_sched unw c sched (init progs))) ->
   In (m, b) (flat_map (records (lie c)) es).
 Proof. exact every_write_is_a_whole_record. Qed.
 Print Assumptions C13_every_write_is_a_whole_record.
@@ -113,7 +115,7 @@ Print Assumptions C13_lifecycle_reaches_on_event.
     -> writer expression): what each recording sink receives. *)
 Theorem C13_thread_sinks : forall c f o sc w th ops,
   well_typed w = true ->
-  (pol c = ClearAfterOnly -> NoAbortedFormat (thread_events f o sc th ops)) ->
+  (pol c = ClearAfterOnly -> NoAbortedFormat no_unwind (lie c) (thread_events f o sc th ops)) ->
   thread_sink_log c f o sc w th ops
   = sink_spec meta_of w (flat_map (records (lie c)) (thread_events f o sc th ops)).
 Proof. exact thread_sinks. Qed.
@@ -158,13 +160,103 @@ Print Assumptions C13_translator_recognised_everything.
     The tree clears the buffer before formatting (or in a drop guard): the statement for the tree under
     check needs no hypothesis on the history — a caught panic during formatting affects no later record.
     (This compiles only when translators/fmtbuf.py finds a repaired policy in fmt_subscriber.rs.) *)
-Theorem C13_one_factory_one_write_no_hypothesis : forall (A M : Type) (l : bool) (es : list (event A M)),
-  snd (run_thread (Cfg Gen_fmtbuf.clear_policy l) [] es) = spec_actions (flat_map (records l) es).
-Proof. intros A M l es. apply panic_safe_when_repaired. vm_compute. discriminate. Qed.
+Theorem C13_one_factory_one_write_no_hypothesis : forall (A M : Type) (unw : M -> list A -> bool) (l : bool) (es : list (event A M)),
+  snd (run_thread unw (Cfg Gen_fmtbuf.clear_policy l) [] es) = spec_actions (flat_map (records l) es).
+Proof. intros A M unw l es. apply panic_safe_when_repaired. vm_compute. discriminate. Qed.
 Print Assumptions C13_one_factory_one_write_no_hypothesis.
 
 Theorem C13_F9_history_is_a_regression_case :
-  snd (run_thread (Cfg Gen_fmtbuf.clear_policy true) [] f9_history)
+  snd (run_thread no_unwind (Cfg Gen_fmtbuf.clear_policy true) [] f9_history)
     = [AMake 1; AWrite 1 [105; 49; 10]; AMake 3; AWrite 3 [99; 51; 10]].
 Proof. apply F9_history_repaired. vm_compute. discriminate. Qed.
 Print Assumptions C13_F9_history_is_a_regression_case.
+
+(** ---- sink faults (a sink's [write] fails, accepts only a part, is interrupted, or panics) ----
+
+    (b') Routing under faults.  For every writer expression, metadata, [io::Write] method ([leaf]: what the
+    method does on one recording writer given its script) and fault plan: the recording writers that are
+    CALLED are those of exactly the denoted sinks, in order, each with its own script and independently of
+    the others' ([spec_calls]); which of the calls fail does not matter.  Only a panic (unwinding) cuts the
+    walk short: then the sinks called are a prefix of the denotation. *)
+Theorem C13_routing_with_faults : forall w m leaf plan,
+  let run := tee_apply true leaf (fst (make_for w m)) plan 0%nat in
+  fst (fst run) = spec_calls leaf plan 0%nat (denote w m)
+  /\ snd (fst run) = spec_res leaf plan 0%nat (denote w m)
+  /\ (snd (fst run) <> WUnwind -> map fst (fst (fst run)) = denote w m)
+  /\ exists rest, denote w m = map fst (fst (fst run)) ++ rest.
+Proof. exact routing_with_faults. Qed.
+Print Assumptions C13_routing_with_faults.
+
+Theorem C13_routing_without_metadata_with_faults : forall w leaf plan,
+  let run := tee_apply true leaf (fst (make0 w)) plan 0%nat in
+  fst (fst run) = spec_calls leaf plan 0%nat (denote0 w)
+  /\ snd (fst run) = spec_res leaf plan 0%nat (denote0 w)
+  /\ (snd (fst run) <> WUnwind -> map fst (fst (fst run)) = denote0 w).
+Proof. exact routing0_with_faults. Qed.
+Print Assumptions C13_routing_without_metadata_with_faults.
+
+(** The tree under check has the [Tee] that theorem is about ([impl_tee!] runs both writers before it
+    propagates an error): read from writer.rs on every run.  The one-line variant is a different writer:
+    [tee_short_circuit_loses_the_record]. *)
+Theorem C13_tee_runs_both_in_tree : Gen_fmtbuf.tee_runs_both = true.
+Proof. reflexivity. Qed.
+Print Assumptions C13_tee_runs_both_in_tree.
+
+Theorem C13_tee_short_circuit_refuted :
+  let x := fst (make_for (WTee (WSink 0) (WSink 1)) (Meta 3 [] [] false)) in
+  let plan := planf [[RsFail]] in
+  fst (fst (tee_apply true (leaf_of MWriteAll [65; 10]) x plan 0%nat))
+    = [(0, [CWrite [65; 10] RsFail]); (1, [CWrite [65; 10] (RsAccept 2)])]
+  /\ fst (fst (tee_apply false (leaf_of MWriteAll [65; 10]) x plan 0%nat))
+    = [(0, [CWrite [65; 10] RsFail])]
+  /\ snd (fst (tee_apply true (leaf_of MWriteAll [65; 10]) x plan 0%nat)) = WErr.
+Proof. exact tee_short_circuit_loses_the_record. Qed.
+Print Assumptions C13_tee_short_circuit_refuted.
+
+(** A healthy sink next to failing ones receives the whole record in one [write]. *)
+Theorem C13_healthy_sink_gets_the_whole_record : forall w m buf plan j i,
+  buf <> [] ->
+  nth_error (denote w m) j = Some i ->
+  plan j = [] ->
+  (forall j', ~ In RsPanic (plan j')) ->
+  nth_error (fst (fst (tee_apply true (leaf_of MWriteAll buf) (fst (make_for w m)) plan 0%nat))) j
+  = Some (i, [CWrite buf (RsAccept (blen buf))]).
+Proof. exact healthy_sink_gets_the_whole_record. Qed.
+Print Assumptions C13_healthy_sink_gets_the_whole_record.
+
+(** "In a single write", when the sink accepts only a part (or is interrupted): fmt issues ONE [write_all];
+    std's loop offers the sink the whole record first and afterwards exactly the suffix it has not accepted
+    yet; when the loop returns [Ok] the accepted pieces, in call order, are the record. *)
+Theorem C13_one_write_all_seen_from_the_sink : forall s buf,
+  (Forall (fun c => exists pre, buf = pre ++ offered_of c) (fst (sink_write_all s buf))
+   /\ (buf <> [] -> exists r rest, fst (sink_write_all s buf) = CWrite buf r :: rest))
+  /\ (snd (sink_write_all s buf) = WOk -> concat (map accepted (fst (sink_write_all s buf))) = buf).
+Proof. intros. split; [apply sink_write_all_offers | apply sink_write_all_delivers]. Qed.
+Print Assumptions C13_one_write_all_seen_from_the_sink.
+
+(** The whole pipeline under faults, seen from the sinks, for every history, fault plan and expression Rust
+    accepts: per routed record, [make_writer_for(meta)] on every denoted sink, then on every denoted sink
+    what ITS script makes of the whole record.  No hypothesis on the history for the code as repaired. *)
+Theorem C13_sinks_see_faulty_writes : forall (M : Type) (pm : M -> meta) (c : cfg) (w : wexp) (es : list (event N (M * list script))),
+  well_typed w = true ->
+  (pol c = ClearAfterOnly -> NoAbortedFormat (unw_f true pm w) (lie c) es) ->
+  distribute_f true pm w (snd (run_thread (unw_f true pm w) c [] es))
+  = sink_spec_f pm w (flat_map (records (lie c)) es).
+Proof. exact sinks_see_faulty_writes. Qed.
+Print Assumptions C13_sinks_see_faulty_writes.
+
+(** A failed write (or a panicking sink, or an aborted format) does not affect the next record: in the tree
+    under check, the calls made for a suffix of a thread's history are those of a fresh thread. *)
+Theorem C13_history_independent : forall (A M : Type) (unw : M -> list A -> bool) (l : bool) (es1 es2 : list (event A M)),
+  snd (run_thread unw (Cfg Gen_fmtbuf.clear_policy l) [] (es1 ++ es2))
+  = snd (run_thread unw (Cfg Gen_fmtbuf.clear_policy l) [] es1) ++ snd (run_thread unw (Cfg Gen_fmtbuf.clear_policy l) [] es2).
+Proof. intros. apply history_independent. vm_compute. discriminate. Qed.
+Print Assumptions C13_history_independent.
+
+(** ... which the unrepaired code would not have had for a panicking sink either (F9's other face). *)
+Theorem C13_sink_panic_would_leak_when_unrepaired :
+  snd (run_thread unw2 (Cfg ClearAfterOnly true) [] sink_panic_history)
+    = [AMake 1; AWrite 1 [1; 10]; AMake 2; AWrite 2 [2; 10]; AMake 3; AWrite 3 [2; 10; 3; 10]]
+  /\ ~ NoAbortedFormat unw2 true sink_panic_history.
+Proof. exact sink_panic_leaks_when_unrepaired. Qed.
+Print Assumptions C13_sink_panic_would_leak_when_unrepaired.
